@@ -47,7 +47,13 @@ func must(err error) {
 	}
 }
 
-func build() *tworld {
+func build() *tworld { return buildFlavour(false, false) }
+
+// buildFlavour: swap exchanges the identities of R and X (so both address
+// orderings of the pair occur); pending leaves the router's own hello and pong
+// requests to X unanswered (their frames are discarded), so that frames from X
+// meet a router that is itself in the middle of the same exchanges.
+func buildFlavour(swap, pending bool) *tworld {
 	w := kit.NewWorld()
 	mk := func(name string, i int, st config.Store) *kit.Node {
 		n, err := w.AddNode(name, pool[i], st)
@@ -56,7 +62,20 @@ func build() *tworld {
 	}
 	st := config.Store{ServiceConfigs: []config.ServiceConfig{{Name: "web", URL: "tcp://web.myco:80", Public: true}}}
 	tw := &tworld{w: w}
-	tw.r, tw.x, tw.y, tw.u = mk("R", 0, st), mk("X", 1, config.Store{}), mk("Y", 2, config.Store{}), mk("U", 3, config.Store{})
+	ri, xi := 0, 1
+	if swap {
+		ri, xi = 1, 0
+	}
+	tw.r, tw.x, tw.y, tw.u = mk("R", ri, st), mk("X", xi, config.Store{}), mk("Y", 2, config.Store{}), mk("U", 3, config.Store{})
+	if pending {
+		defer func() {
+			_, err := tw.r.Router().HelloPing.Send(tw.x.Identity().IP)
+			must(err)
+			_, _, err = tw.r.Router().PingPong.Send(tw.x.Identity().IP, true, 0)
+			must(err)
+			w.InFlight, w.Log = nil, nil
+		}()
+	}
 	for i, n := range []*kit.Node{tw.x, tw.y} {
 		// X's link has a 1-byte label at R, Y's link a 2-byte label.
 		_, _, err := w.Connect(tw.r, n, m.SwitchLabel(11+i*289), m.SwitchLabel(21+i), 5)
@@ -463,6 +482,8 @@ func (tw *tworld) deliver(rc recipe) (panics []string, err error) {
 	default:
 		tw.w.InjectVia(nil, tw.r, raw)
 	}
+	// the periodic cleaners run on whatever state the case left behind.
+	_ = tw.w.Clean(tw.r)
 	// drain side effects so that the world does not grow.
 	tw.w.InFlight = nil
 	tw.w.Log = nil
@@ -483,7 +504,7 @@ func (tw *tworld) deliver(rc recipe) (panics []string, err error) {
 func TestC13(t *testing.T) {
 	env := kit.GetEnv()
 	rep := kit.NewReport("C13", env)
-	rep.Rule = "(1) raw bytes: every byte string of length 0..2, every prefix of 14 valid frames, each valid frame + 1 byte, through parser, switch and router of a real router; link reader: every 2-byte string as the first bytes of a connection, garbage (0/exact/short/long following bytes) at each of the 3 handshake read positions, a sweep of ~700 length-prefix values x {exact, short} after the handshake; (2) structured: 14 valid base frames (every ping type and code, traffic, session types) x all single and all pairs (different fields) of ~190 deviations over frame fields (version, TTL, flow, all interesting type values, 9 sources, 8 destinations, 10 switch blocks, sealing mode, receive link), ping framing (version, header length, type, code, follow-up, id, identity fields, raw header encodings), 25 CBOR bodies, inner packets, appendix garbage and signed hop chains (depth up to 56, self reference, loop, 3-byte labels) - always re-sealed with the authenticated peer's real keys; (2b) request/response protocols started by the router itself (pong, hello) with the peer's genuine response delivered 1-3 times, also after clock steps and interleaved with a second exchange; (3) cases are delivered back to back to long-lived routers (worlds are renewed every 40 cases or after a panic), so every case also runs from the state its predecessors left; non-trivial = every case except the 14 unmodified bases; distinct = distinct (base, deviation set)"
+	rep.Rule = "(1) raw bytes: every byte string of length 0..2, every prefix of 14 valid frames, each valid frame + 1 byte, through parser, switch and router of a real router; link reader: every 2-byte string as the first bytes of a connection, garbage (0/exact/short/long following bytes) at each of the 3 handshake read positions, a sweep of ~700 length-prefix values x {exact, short} after the handshake; well-formed, correctly signed link-setup messages of a peer that owns its identity, as dialling and as accepting side, with each request/response/ack field set to strings of 1..64000 bytes of {NUL, 'a', quote, DEL}, odd integers or left out; congestion: 99..1300 ping / traffic / mixed frames from an authenticated peer forwarded by the router to a real link whose neighbour stopped reading (both send queues overflow); (2) structured: 14 valid base frames (every ping type and code, traffic, session types) x all single and all pairs (different fields) of ~190 deviations over frame fields (version, TTL, flow, all interesting type values, 9 sources, 8 destinations, 10 switch blocks, sealing mode, receive link), ping framing (version, header length, type, code, follow-up, id, identity fields, raw header encodings), 25 CBOR bodies, inner packets, appendix garbage and signed hop chains (depth up to 56, self reference, loop, 3-byte labels) - always re-sealed with the authenticated peer's real keys; (2b) request/response protocols started by the router itself (pong, hello) with the peer's genuine response delivered 1-3 times, also after clock steps and interleaved with a second exchange; (2c) every base x single deviation against a router whose own hello and pong requests to the sender are pending, in both address orderings, followed by a 31 s clock step and the periodic cleaners; the periodic cleaners also run after every case of (2); (3) cases are delivered back to back to long-lived routers (worlds are renewed every 40 cases or after a panic), so every case also runs from the state its predecessors left; non-trivial = every case except the 14 unmodified bases; distinct = distinct (base, deviation set)"
 	rep.Assumptions = []string{
 		"a panic is observed exactly where production observes it: recovered by the worker wrapper of the module manager (ErrWorkerPanic) or as a worker-panic alert for link workers",
 		"the double-return guard of the frame pool panics, so 'each frame buffer released at most once' is observed as absence of that panic",
@@ -594,9 +615,56 @@ func TestC13(t *testing.T) {
 		flush()
 	}
 
+	// (2c) every base and single deviation against a router that has its own
+	// hello and pong requests to X pending, in both address orderings.
+	for _, swap := range []bool{false, true} {
+		for _, b := range baseNames {
+			if !mine() {
+				continue
+			}
+			synctest.Test(t, func(t *testing.T) {
+				for i := -1; i < len(devs); i++ {
+					tw := buildFlavour(swap, true)
+					rc := bases(tw)[b].clone()
+					var names []string
+					if i >= 0 {
+						devs[i].apply(tw, &rc)
+						names = append(names, devs[i].name)
+					}
+					var pans []string
+					var err error
+					hp, hv := kit.Try(func() {
+						pans, err = tw.deliver(rc)
+						time.Sleep(31 * time.Second)
+						np := len(tw.w.Panics)
+						_ = tw.w.Clean(tw.r)
+						pans = append(pans, tw.w.Panics[np:]...)
+					})
+					evals++
+					transitions += 2
+					nontrivial++
+					desc := fmt.Sprintf("own hello+pong to X pending (addresses swapped=%v), then base=%s deviations=%v, then cleaners", swap, b, names)
+					switch {
+					case hp:
+						rep.Violate("harness-level-panic/"+panicKey(fmt.Sprint(hv)), fmt.Sprintf("panic outside a worker wrapper: %v; %s", hv, desc), map[string]any{"base": b, "deviations": names, "pending": true, "swap": swap})
+						outcomes["panic"]++
+					case len(pans) > 0:
+						rep.Violate("pending/panic/"+panicKey(pans[0]), fmt.Sprintf("worker panic: %s; %s", pans[0], desc), map[string]any{"base": b, "deviations": names, "pending": true, "swap": swap})
+						outcomes["panic"]++
+					case err != nil:
+						outcomes["not-buildable"]++
+					default:
+						outcomes["handled"]++
+					}
+				}
+			})
+		}
+	}
+
 	protocolRepeats(t, rep, env, &evals, &nontrivial, &transitions, outcomes, mine)
 	rawBytes(t, rep, env, &evals, &nontrivial, &transitions, outcomes, mine)
 	linkReader(t, rep, env, &evals, &nontrivial, &transitions, outcomes, mine)
+	maliciousHandshake(t, rep, env, &evals, &nontrivial, &transitions, outcomes, mine)
 
 	for k, v := range outcomes {
 		for i := 0; i < v; i++ {
